@@ -43,8 +43,8 @@ theorem decode_int_iff (t : IntTy) (v : Value) (hv : isInt v = true) :
     (decode (.int t) v).isOk = true ↔ fits t (numOf v) := by
   rw [decode_int_of_isInt t v hv]
   by_cases hf : fits t (numOf v)
-  · simp [if_pos hf, hf, Except.isOk, Except.toBool]
-  · simp [if_neg hf, hf, Except.isOk, Except.toBool]
+  · rw [if_pos hf]; exact ⟨fun _ => hf, fun _ => rfl⟩
+  · rw [if_neg hf]; exact ⟨fun h => by simp [Except.isOk, Except.toBool] at h, fun h => absurd h hf⟩
 
 /-- The eight fixed-width targets, in the property's own terms (`intTarget bits signed`). -/
 theorem decode_int_iff_fixed (bits : Nat) (sgn : Bool) (v : Value) (hv : isInt v = true) :
@@ -115,6 +115,13 @@ theorem decode_exact (τ : Target) (v : Value) (x : Dec) (hτ : noFloat τ = tru
 /-- `f64 ← Float64` is the identity. -/
 theorem decode_f64_identity (k : Int) : decode .f64 (.float64 k) = .ok (.f64 (.fin k)) := by
   simp [decode]
+
+/-- Outside the claim, stated so that it is not mistaken for one: float targets accept *every* integer
+(serde's `f32`/`f64` visitors take `visit_i64`/`visit_u64` with `v as f32/f64`); whether the result
+is the same number is exactly `representable` (`decode_faithful`). -/
+theorem decode_float_accepts_every_integer (v : Value) (hv : isInt v = true) :
+    (decode .f64 v).isOk = true ∧ (decode .f32 v).isOk = true := by
+  cases v <;> simp [isInt] at hv <;> simp [decode, Except.isOk, Except.toBool]
 
 /-- `()` is outside the property's quantifier; the real decoder accepts nothing for it (serde's unit
 visitor only has `visit_unit`, which `deserialize_any` never calls). -/
@@ -259,7 +266,7 @@ example : decode .f64 (.uint64 9007199254740993) = .ok (.f64 (.fin 4845873199050
 example : representable .f64 (.uint64 9007199254740993) = false := by decide
 example : representable .f64 (.uint64 9007199254740992) = true := by decide
 example : decode .f32 (.int64 16777217) = .ok (.f32 (.fin 4715268809856909312)) := by rfl
-example : decode .f32 (.float64 9214871658872686752) = .ok (.f32 .inf) := by rfl
+example : decode .f32 (.float64 9094988921128908188) = .ok (.f32 .inf) := by rfl
 
 end TF.C18
 
@@ -273,6 +280,7 @@ end TF.C18
 #print axioms TF.C18.decode_ok_iff
 #print axioms TF.C18.decode_exact
 #print axioms TF.C18.decode_f64_identity
+#print axioms TF.C18.decode_float_accepts_every_integer
 #print axioms TF.C18.decode_unit_rejects
 #print axioms TF.C18.decode_option_null
 #print axioms TF.C18.decode_option_none_iff
